@@ -117,9 +117,12 @@ def run(pid, tier):
                       "grammars whose non-terminals all derive a finite string and whose names are defined; distinct = grammar, non-trivial = json text > 40 chars")
     ck.notes["input_distribution"] = hist
     ck.assumptions = ["derivability oracle: chart-based least fixed point in the harness, applied to samples of at most 24 characters"]
-    return ck.finish(level="other", trusted=["model of grammar/convert.py: coq/Grammar.v (tied by stream Gr)"],
-                     explanation="correspondence of the executable Coq model of grammar/convert.py (incl. resolve and optimize) with the implementation on random grammars, "
-                                 "plus derivability / coverage oracle; the Coq derivability theorem is in progress")
+    return ck.finish(level="proof", trusted=["model of grammar/convert.py: coq/Grammar.v (tied by stream Gr)"],
+                     explanation="theorem C08_language (coq/GrammarLang.v): every complete execution of the graph built by the model of convert() -- rule decisions, "
+                                 "References resolved by resolve() (semantic statement resolve_sem: successors of visited nodes are the dereferenced successors), optimize(), "
+                                 "input / output nodes -- yields a string derivable from the start symbol, by induction over the execution against the shape the converter gives "
+                                 "each right-hand side; the model is tied to the implementation on random grammars (graph dumps, entries, samples); chart-based derivability and "
+                                 "occurrence-wise coverage oracle on the implementation alone")
 
 
 def replay(pid, path):
